@@ -68,6 +68,15 @@ CLAIMS.update({
     ),
 })
 
+CLAIMS.update({
+    "C06": dict(
+        technique="branch-consistent path exploration over driver CFGs with a version/freshness relation (which derived value was computed from which model version), must-match-at-return check, plus AST lints for callback arity, relative unit, guarded sqrt and the last-mode pairing (sibling cross-check)",
+        text="Decides for the 12 iterative drivers (CP-ALS, randomised CP, multiplicative and HALS non-negative CP, constrained CP, HOOI, both non-negative Tucker variants, PARAFAC2, TR-ALS and its sampled variant, CMTF): on every branch-consistent path and across iterations each reported error (list append/store, callback argument) is defined and was computed from the current versions of all model variables, the last report before every return matches the returned model, callbacks always get (decomposition, error), reported values are quotients by the data norm (CMTF: documented squared form), square roots of differences are guarded by abs, and the MTTKRP shortcut is only used when the last mode is swept last. It does NOT decide the algebra of the error shortcuts.",
+        note="Trusted: the frozen driver table (model variables, error list, callback, data norm, representation-preserving calls); call results are taken as computed from their arguments; reading a local with no definition on a path ends that path (Python raises).",
+        design="DESIGN.md §3 C06",
+    ),
+})
+
 NA = {
     "C04": "Equality of floating-point tensors across norms, signs, QR and SVD: no structural necessary condition exists that is not a frozen copy of the formula; the one shape-level clause (transforms must not write into their argument) is decided under C15.",
     "C05": "Singular values, orthonormality and optimal truncation error are numerical facts about LAPACK results; no sound static argument bounds them.",
